@@ -14,7 +14,7 @@ from ..report import Outcome
 from ..universe import Universe
 from .storefam import E
 
-SYMTAB = {"uml": "ä", "vnul": "a\x00b", "i5": 5, "vlong": "x" * 600, "vsp": " a ", "vup": "A"}
+SYMTAB = {"vlist": ["x", ["y", 1]], "vobj": {"k": ["v"]}, "uml": "ä", "vnul": "a\x00b", "i5": 5, "vlong": "x" * 600, "vsp": " a ", "vup": "A"}
 
 
 def kv_universe():
@@ -32,6 +32,9 @@ def kv_universe():
         E("tl", "B", 1, 25, [["t", "a"], ["r", "vlong"], ["p", "A"], ["t", "ab"]]),     # one index key is too long for LMDB
         E("m0", "A", 0, 10, [["t", "a"]]),
         E("m1", "A", 0, 20, []),
+        # tag values that are arrays / objects: they reach the index as Python lists on the way in and as msgpack tuples on the way out
+        E("tv", "B", 1, 27, [["e", "vlist"], ["t", "a"], ["q", "vobj"]]),
+        E("dv", "B", 5, 40, [["e", "tv"]]),
     ]
 
 
